@@ -152,7 +152,30 @@ func (in *govGraph) state(i int) *mState {
 
 // ---------------------------------------------------------------- concretisation
 
-var aergo = new(big.Int).Exp(big.NewInt(10), big.NewInt(18), nil)
+// Amount scales: the concrete value (in aer) of one model AERGO.  "aergo": 10^18.  "byte-boundary": chosen so that
+// 10000 model AERGO is just below 2^80 aer/2 and 20000 just above 2^80: consecutive model amounts then differ in the
+// LENGTH of their big-endian encoding (10 bytes with leading 0x80.., 11 bytes with leading 0x01), which is how the
+// contracts store amounts.  All amounts (balances, stakes, payments, proposed STAKINGMIN/NAMEPRICE values) are scaled
+// alike, so every comparison between them is preserved; the built-in defaults (10^22 minimum stake, 10^18 name price)
+// relate to the multiples of 10000 resp. 1 model AERGO the model uses exactly as the model's defaults 10000 and 1 do.
+var (
+	unitAergo = new(big.Int).Exp(big.NewInt(10), big.NewInt(18), nil)
+	// ceil(2^80 / 20000)
+	unitBoundary = func() *big.Int {
+		q := new(big.Int).Lsh(big.NewInt(1), 80)
+		q.Add(q, big.NewInt(19999))
+		return q.Div(q, big.NewInt(20000))
+	}()
+	scaleNames = []string{"aergo", "byte-boundary"}
+	aergo      = unitAergo // the scale in use (one world at a time per process); set by newSut
+)
+
+func unitOf(scale string) *big.Int {
+	if scale == "byte-boundary" {
+		return unitBoundary
+	}
+	return unitAergo
+}
 
 func toAer(m int64) *big.Int { return new(big.Int).Mul(big.NewInt(m), aergo) }
 
@@ -210,6 +233,7 @@ func (hm *heightMap) model(no uint64) (int64, bool) {
 type world struct {
 	cfg      govCfg
 	hm       *heightMap // model heights <-> block numbers
+	amounts  string     // amount scale ("aergo" if empty)
 	addr     map[string][]byte
 	acctOf   map[string]string // hex address -> model account
 	cand     map[string][]byte
@@ -331,7 +355,7 @@ func (w *world) describe() map[string]interface{} {
 	for k, v := range w.cand {
 		c[k] = base58.Encode(v)
 	}
-	return map[string]interface{}{"accounts": a, "candidates": c, "names": w.name, "layout": w.layout, "heights": w.hm.name}
+	return map[string]interface{}{"accounts": a, "candidates": c, "names": w.name, "layout": w.layout, "heights": w.hm.name, "amounts": w.amounts, "aer_per_model_aergo": unitOf(w.amounts).String()}
 }
 
 // ---------------------------------------------------------------- the system under test
@@ -348,6 +372,10 @@ type sut struct {
 
 func newSut(w *world, startNo uint64) (*sut, error) {
 	s := &sut{w: w, no: startNo, fork: 3}
+	aergo = unitOf(w.amounts)
+	for i := range w.scale {
+		w.scale[i] = issueScale(i)
+	}
 	// the in-memory store loads <dir>/state/database when it exists and dumps itself there on Close:
 	// every instance gets a directory of its own and is never closed
 	dir, err := os.MkdirTemp("", "verif-gov-")
@@ -780,6 +808,9 @@ func (s *sut) observe(prev *observation) (o *observation, err error) {
 	for p := range w.cfg.Defaults {
 		conv := func(sv string) int64 {
 			x, _ := new(big.Int).SetString(sv, 10)
+			if d := system.DefaultParams[p]; d != nil && d.Cmp(x) == 0 {
+				return w.cfg.Defaults[p] // the built-in default stands for the model's default
+			}
 			q, r := new(big.Int).QuoRem(x, issueScale(p), new(big.Int))
 			if r.Sign() != 0 {
 				bad("param", "parameter %s = %s is not a model value", p, sv)
@@ -1300,10 +1331,12 @@ func runGraph(in *govGraph, shard, nshards int, res *verifkit.Result, rep *repor
 		v := pi / nshards
 		layout := layouts[v%len(layouts)]
 		hm := hmaps[[]int{0, 1, 0, 1, 2}[v%5]]
-		w := worlds[layout+hm.name]
+		amounts := scaleNames[[]int{0, 1, 0, 1, 1, 0, 1}[v%7]] // 3, 5 and 7 are coprime: every combination occurs
+		w := worlds[layout+hm.name+amounts]
 		if w == nil {
 			w = newWorld(in.Cfg, verifkit.Rng(int64(len(layout))), layout, hm)
-			worlds[layout+hm.name] = w
+			w.amounts = amounts
+			worlds[layout+hm.name+amounts] = w
 		}
 		s, err := newSut(w, hm.block(in.state(in.Init).H))
 		if err != nil {
@@ -1374,7 +1407,7 @@ func runGraph(in *govGraph, shard, nshards int, res *verifkit.Result, rep *repor
 					}
 					boundary = true
 					// (restarts are not part of the key: a restart must not change the state)
-					hk := w.layout + hm.name + "|" + strings.NewReplacer(" restart=true", "", " restart=false", "").Replace(strings.Join(s.hist[:len(s.hist)-1], ";"))
+					hk := w.layout + hm.name + w.amounts + "|" + strings.NewReplacer(" restart=true", "", " restart=false", "").Replace(strings.Join(s.hist[:len(s.hist)-1], ";"))
 					hs := sha256.Sum256([]byte(hk))
 					hkey := hex.EncodeToString(hs[:])
 					if prev, ok := roots[hkey]; ok && prev != hex.EncodeToString(root) {
@@ -1401,7 +1434,7 @@ func runGraph(in *govGraph, shard, nshards int, res *verifkit.Result, rep *repor
 						return
 					}
 				}
-				res.Count(fmt.Sprintf("edge:%s:%d:%d:%v:%s:%s", in.Name, cur, step.Op, step.Restart, w.layout, hm.name))
+				res.Count(fmt.Sprintf("edge:%s:%d:%d:%v:%s:%s:%s", in.Name, cur, step.Op, step.Restart, w.layout, hm.name, w.amounts))
 				o, err := s.observe(nil)
 				if err != nil {
 					rep.violate(map[string]interface{}{"kind": "read-error", "op": opName}, s.replay("graph "+in.Name, lastOp, ""), "%v", err)
